@@ -283,9 +283,13 @@ class BoundingBox(Sequence[float]):
         :param transform: Affine mapping from pixel to world
         :param crs: CRS
         """
-        p1 = transform * (0, 0)
-        p2 = transform * shape_(shape).xy
-        return BoundingBox.from_points(p1, p2, crs=crs)
+        nx, ny = shape_(shape).xy
+        # all four corners: for a rotated or sheared transform two opposite corners
+        # do not span the footprint
+        pts = [transform * pt for pt in [(0, 0), (0, ny), (nx, ny), (nx, 0)]]
+        xs = [x for x, _ in pts]
+        ys = [y for _, y in pts]
+        return BoundingBox(min(xs), min(ys), max(xs), max(ys), crs)
 
     @property
     def aoi(self) -> AreaOfInterest:
